@@ -18,6 +18,31 @@ func (m *Machine) fsPath(v Value, what string) string {
 }
 
 func (m *Machine) fsErr(fr *frame, msg string) Value {
+	// "no such file" errors are *fs.PathError wrapping oserror.ErrNotExist, so that os.IsNotExist and
+	// errors.Is(err, fs.ErrNotExist) answer as they do on the real file system
+	if strings.Contains(msg, "no such file or directory") {
+		fsp, ose := m.Prog.ImportedPackage("io/fs"), m.Prog.ImportedPackage("internal/oserror")
+		if fsp != nil && ose != nil && fsp.Type("PathError") != nil && ose.Var("ErrNotExist") != nil {
+			pt := fsp.Type("PathError").Type()
+			st := pt.Underlying().(*types.Struct)
+			v := zero(pt).(Struct)
+			op, rest, _ := strings.Cut(msg, " ")
+			name, _, _ := strings.Cut(rest, ":")
+			for i := 0; i < st.NumFields(); i++ {
+				switch st.Field(i).Name() {
+				case "Op":
+					v[i] = MkStr(op)
+				case "Path":
+					v[i] = MkStr(name)
+				case "Err":
+					v[i] = *m.global(ose.Var("ErrNotExist"))
+				}
+			}
+			cell := new(Value)
+			*cell = v
+			return Iface{T: types.NewPointer(pt), V: cell}
+		}
+	}
 	return m.newError(fr, MkStr(msg))
 }
 
